@@ -497,9 +497,6 @@ func (c *Client) Publish(topic string, options wamp.Dict, args wamp.List, kwargs
 	} else {
 		// Check if the client is asking for a PUBLISHED response.
 		pubAck, _ = options[wamp.OptAcknowledge].(bool)
-		if pubAck {
-			c.expectReply(id)
-		}
 	}
 
 	message := &wamp.Publish{
@@ -546,12 +543,15 @@ func (c *Client) Publish(topic string, options wamp.Dict, args wamp.List, kwargs
 		message.ArgumentsKw = kwargs
 	}
 
-	if err := c.send(message); err != nil {
-		return err
+	if !pubAck {
+		return c.send(message)
 	}
 
-	if !pubAck {
-		return nil
+	// Expect the reply only now that nothing can keep the request from being
+	// sent; a request that is given up must not leave an expected reply behind.
+	c.expectReply(id)
+	if err := c.sendRequest(id, message); err != nil {
+		return err
 	}
 
 	// Wait to receive PUBLISHED message.
@@ -801,7 +801,6 @@ func (c *Client) Call(ctx context.Context, procedure string, options wamp.Dict, 
 	}
 
 	id := c.sess.IDGen.Next()
-	c.expectReply(id)
 	message := &wamp.Call{
 		Request:   id,
 		Procedure: wamp.URI(procedure),
@@ -812,6 +811,7 @@ func (c *Client) Call(ctx context.Context, procedure string, options wamp.Dict, 
 	if err != nil {
 		return nil, err
 	}
+	c.expectReply(id)
 
 	// If this fails, waitForReplyWithCancel returns ErrNotConn.
 	_ = c.send(message)
@@ -900,7 +900,6 @@ func (c *Client) CallProgressive(ctx context.Context, procedure string, sendProg
 	}
 
 	id := c.sess.IDGen.Next()
-	c.expectReply(id)
 	message := &wamp.Call{
 		Request:   id,
 		Procedure: wamp.URI(procedure),
@@ -911,6 +910,7 @@ func (c *Client) CallProgressive(ctx context.Context, procedure string, sendProg
 	if err != nil {
 		return nil, err
 	}
+	c.expectReply(id)
 
 	// If this fails, waitForReplyWithCancel returns ErrNotConn.
 	_ = c.send(message)
